@@ -16,7 +16,7 @@ def run(ctx):
         cases += sum(summary["cases"].values())
         accepted += summary.get("accepted_by_parser", 0)
         samples += wf.samples(r.outfile, 2, keys=("mode", "how", "x", "spec"))
-    if accepted < 100:
+    if accepted < 100 and not ctx.violations:
         from vlib.common import Broken
         raise Broken("vacuous: the real parser accepted only %d generated inputs" % accepted)
     ctx.coverage = {
